@@ -14,20 +14,25 @@ Mirrors
 
     builder          Go site                                                        validation as coded
     ---------------  -------------------------------------------------------------  -------------------------------------------
-    lookupUpload     pkg/lookups/lookups.go UploadLookupFile:40-84                  form value `name` ≠ "" ; ".csv" appended unless
-                     filepath.Join(GetLookupPath(), fileName)                       lower(name) ends in .csv/.csv.gz ; NOTHING else
+    lookupUpload     pkg/lookups/lookups.go UploadLookupFile                        form value `name` ≠ "" and utils.IsSimpleFileName(name)
+                     filepath.Join(GetLookupPath(), fileName)                       (fix); ".csv" appended unless lower(name) ends in .csv/.csv.gz
     lookupGet        lookups.go GetLookupFile:168-172   (route {lookupFilename})    none in the handler; fasthttp/router param:
     lookupDelete     lookups.go DeleteLookupFile:196-200 (route {lookupFilename})   raw path segment, non-empty, contains no '/'
-    inputlookup      pkg/segment/query/processor/inputlookupcommand.go:98-106       name ends in ".csv" or ".csv.gz" ; NOTHING else
-                     (same code: pkg/segment/aggregations/generateevents.go:109-118)
-    aliasFile        pkg/virtualtable/virtualtable.go GetAliases/writeAliasFile/    index name ≠ "" (AddAliases/RemoveAliases);
-                     removeAliasFile: VTableAliasesDir ++ index ++ ".json"          index comes from the JSON body of POST /_aliases
-    mappingFile      virtualtable.go AddMapping:308-318 VTableMappingsDir++t++".json"  route param {indexName} (PUT /{indexName})
-    baseSegDir       pkg/config/config.go GetBaseSegDir:1625-1638                   NONE (index name = `_index` of a bulk action)
-    baseVTableDir    config.go GetBaseVTableDir:1621-1623 (filepath.Join)           NONE
-    suffixFile       config.go GetSuffixFile:1609-1619                              NONE
-    tagsTreeFile     pkg/segment/writer/metrics/tagstree.go GetFinalTagsTreeDir:267 NONE (tag key of an ingested datapoint)
-                     + getTagsTreeFileName:278-284  (ttBase ++ key)
+    inputlookup      pkg/segment/query/processor/inputlookupcommand.go Process      name ends in ".csv" or ".csv.gz" and
+                     (same code: pkg/segment/aggregations/generateevents.go)        utils.IsSimpleFileName(name) (fix)
+    aliasFile        pkg/virtualtable/virtualtable.go GetAliases/writeAliasFile/    vtable.IsValidIndexName(index) in AddAliases /
+                     removeAliasFile: VTableAliasesDir ++ index ++ ".json"          RemoveAliases / GetAliases (fix)
+    mappingFile      virtualtable.go AddMapping  VTableMappingsDir++t++".json"      route param {indexName} (PUT /{indexName}) and
+                                                                                    vtable.IsValidIndexName (fix)
+    baseSegDir       pkg/config/config.go GetBaseSegDir                             the builders themselves check nothing; the index name
+    baseVTableDir    config.go GetBaseVTableDir (filepath.Join)                     enters through es/writer ProcessIndexRequestPle (all
+    suffixFile       config.go GetSuffixFile                                        ingest protocols) / HandleBulkBody / vtable.AddVirtualTable,
+                                                                                    which reject it unless vtable.IsValidIndexName (fix)
+    tagsTreeFile     pkg/segment/writer/metrics/tagstree.go GetFinalTagsTreeDir     metrics.EncodeDatapoint rejects the datapoint unless every
+                     + getTagsTreeFileName  (ttBase ++ key)                         tag key passes utils.IsSimpleFileName (fix)
+
+  utils.IsSimpleFileName(name) = name ∉ {"", ".", ".."} and no '/' and no '\\' in name   →  `simpleName`.
+  The definitions `…Old` are the builders as they were BEFORE the fix: commits (kept for the counterexample theorems).
     dashboardDetails pkg/dashboards/dashboards.go getDashboardDetailsPath:54-59     route param {dashboard-id} (get/favorite/delete);
                      (non-default branch)                                           update: id must be a key of the folder structure
     scrollResults    pkg/scroll/scroll.go GetScrollRecord:203-217 +                 a client scroll_id that is not a key of the
@@ -150,6 +155,9 @@ def endsWith (s suf : Str) : Bool := suf.reverse.isPrefixOf s.reverse
 def csvExt : Str := ".csv".toList
 def csvGzExt : Str := ".csv.gz".toList
 
+/-- utils.IsSimpleFileName: not "", ".", "..", and neither '/' nor '\\' occurs -/
+def simpleName (v : Str) : Bool := v ≠ [] ∧ v ≠ dot ∧ v ≠ dd ∧ '/' ∉ v ∧ '\\' ∉ v
+
 /-- fasthttp/router named parameter: one raw, non-empty path segment -/
 def routeParamOK (v : Str) : Bool := v ≠ [] ∧ '/' ∉ v
 
@@ -171,43 +179,64 @@ def uploadName (v : Str) : Str :=
     Clean(lookupPath ++ "/" ++ name) = Clean(dataPath ++ "lookups" ++ "/" ++ "" ++ "/" ++ name) -/
 def lookupJoin (d : List Seg) (name : Str) : NPath := cleanN (dataPath d ++ joinSegs ["lookups".toList, [], name])
 
-def lookupUpload (d : List Seg) (v : Str) : Option NPath :=
+def lookupUploadOld (d : List Seg) (v : Str) : Option NPath :=
   if v = [] then none else some (lookupJoin d (uploadName v))
+
+def lookupUpload (d : List Seg) (v : Str) : Option NPath :=
+  if simpleName v then lookupUploadOld d v else none
 
 def lookupGet (d : List Seg) (v : Str) : Option NPath :=
   if routeParamOK v then some (lookupJoin d v) else none
 
 def lookupDelete (d : List Seg) (v : Str) : Option NPath := lookupGet d v
 
-def inputlookup (d : List Seg) (v : Str) : Option NPath :=
+def inputlookupOld (d : List Seg) (v : Str) : Option NPath :=
   if endsWith v csvExt ∨ endsWith v csvGzExt then some (lookupJoin d v) else none
 
+def inputlookup (d : List Seg) (v : Str) : Option NPath :=
+  if simpleName v then inputlookupOld d v else none
+
 /-- VTableAliasesDir ++ index ++ ".json", VTableAliasesDir = dataPath ++ "ingestnodes/" ++ hostID ++ "/vtabledata" ++ "/aliases/" -/
-def aliasFile (d : List Seg) (H : Seg) (v : Str) : Option NPath :=
+def aliasFileOld (d : List Seg) (H : Seg) (v : Str) : Option NPath :=
   if v = [] then none else
   some (cleanN (dataPath d ++ joinSegs ["ingestnodes".toList, H, "vtabledata".toList, "aliases".toList, v ++ ".json".toList]))
 
+def aliasFile (d : List Seg) (H : Seg) (v : Str) : Option NPath :=
+  if simpleName v then aliasFileOld d H v else none
+
 def mappingFile (d : List Seg) (H : Seg) (v : Str) : Option NPath :=
-  if routeParamOK v then
+  if routeParamOK v ∧ simpleName v then
     some (cleanN (dataPath d ++ joinSegs ["ingestnodes".toList, H, "vtabledata".toList, "mappings".toList, v ++ ".json".toList]))
   else none
 
 /-- dataPath ++ hostID ++ "/final/" ++ index ++ "/" ++ streamid ++ "/" ++ suffix ++ "/" -/
-def baseSegDir (d : List Seg) (H : Seg) (v : Str) : Option NPath :=
+def baseSegDirOld (d : List Seg) (H : Seg) (v : Str) : Option NPath :=
   some (cleanN (dataPath d ++ joinSegs [H, "final".toList, v, SID, ['0'], []]))
+
+def baseSegDir (d : List Seg) (H : Seg) (v : Str) : Option NPath :=
+  if simpleName v then baseSegDirOld d H v else none
 
 /-- filepath.Join(dataPath, hostID, "final", index, streamid) = Clean(dataPath ++ "/" ++ hostID ++ "/final/" ++ index ++ "/" ++ streamid)
     (an empty index is skipped by Join, which equals the doubled '/' that Clean collapses) -/
-def baseVTableDir (d : List Seg) (H : Seg) (v : Str) : Option NPath :=
+def baseVTableDirOld (d : List Seg) (H : Seg) (v : Str) : Option NPath :=
   some (cleanN (dataPath d ++ joinSegs [[], H, "final".toList, v, SID]))
 
+def baseVTableDir (d : List Seg) (H : Seg) (v : Str) : Option NPath :=
+  if simpleName v then baseVTableDirOld d H v else none
+
 /-- dataPath ++ hostID ++ "/suffix/" ++ index ++ "/" ++ streamid ++ ".suffix" -/
-def suffixFile (d : List Seg) (H : Seg) (v : Str) : Option NPath :=
+def suffixFileOld (d : List Seg) (H : Seg) (v : Str) : Option NPath :=
   some (cleanN (dataPath d ++ joinSegs [H, "suffix".toList, v, SID ++ ".suffix".toList]))
 
+def suffixFile (d : List Seg) (H : Seg) (v : Str) : Option NPath :=
+  if simpleName v then suffixFileOld d H v else none
+
 /-- dataPath ++ hostID ++ "/final/tth/" ++ mid ++ "/" ++ suffix ++ "/" ++ tagKey -/
-def tagsTreeFile (d : List Seg) (H : Seg) (v : Str) : Option NPath :=
+def tagsTreeFileOld (d : List Seg) (H : Seg) (v : Str) : Option NPath :=
   some (cleanN (dataPath d ++ joinSegs [H, "final".toList, "tth".toList, MID, ['0'], v]))
+
+def tagsTreeFile (d : List Seg) (H : Seg) (v : Str) : Option NPath :=
+  if simpleName v then tagsTreeFileOld d H v else none
 
 /-- dataPath ++ "querynodes/" ++ hostID ++ "/dashboards/details/" ++ id ++ ".json" -/
 def dashboardDetails (d : List Seg) (H : Seg) (v : Str) : Option NPath :=
